@@ -42,6 +42,10 @@
    _deduplicate_array replaces an index array by an equal, never mutated one:
    in Gallina equal lists are indistinguishable, so it is the identity here.
 
+   The correspondence check (harness/c05.py) evaluates [check_case] on every
+   generated history: outputs of [run] against the implementation's, and
+   [pos_trace] against the tell() of the stream the harness supplied.
+
    No proofs in this file. *)
 
 From Coq Require Import List ZArith Bool Arith.
@@ -1035,13 +1039,38 @@ Fixpoint outs_agree (model : list out) (obs : list (option out)) : bool :=
   | _, _ => false
   end.
 
-(* one correspondence case: the abstract file, the history, the observed outputs *)
-Definition check_case (c : file * list op * list (option out)) : bool :=
-  let '(f, ops, obs) := c in
-  wf_file f && outs_agree (snd (run f init ops)) obs.
+(* the OS file position after every operation (the harness reads it off the
+   stream it supplied: io.BytesIO.tell()) *)
+Fixpoint pos_trace (fixd : bool) (f : file) (st : state) (ops : list op) : list Z :=
+  match ops with
+  | [] => []
+  | o :: r => let st1 := fst (step_gen fixd f st o) in pos st1 :: pos_trace fixd f st1 r
+  end.
+
+(* a position inside (or at the end of) the raw data of some segment, i.e. one
+   that results from reading or seeking to channel data; the position left by the
+   lead-in tag check of _verify_segment_start (segment position + 4) is not *)
+Definition in_raw (f : file) (p : Z) : bool :=
+  existsb (fun s => s_raw s && (s_data_pos s <=? p) && (p <=? seg_end s)) (f_segs f).
+
+(* observed position None = not compared; a model position outside the raw data
+   (a harmless seek to a lead-in) is not compared either *)
+Fixpoint pos_agree (f : file) (model : list Z) (obs : list (option Z)) : bool :=
+  match model, obs with
+  | [], [] => true
+  | m :: model', None :: obs' => pos_agree f model' obs'
+  | m :: model', Some p :: obs' => (negb (in_raw f m) || (m =? p)) && pos_agree f model' obs'
+  | _, _ => false
+  end.
+
+(* one correspondence case: the abstract file, the history, the observed
+   outputs, the observed stream position after each operation *)
+Definition check_case (c : file * list op * list (option out) * list (option Z)) : bool :=
+  let '(f, ops, obs, ps) := c in
+  wf_file f && outs_agree (snd (run f init ops)) obs && pos_agree f (pos_trace true f init ops) ps.
 
 (* the same against the as-is model (used to confirm that a violating history
    found on the unrepaired tree is the modelled defect) *)
-Definition check_case_asis (c : file * list op * list (option out)) : bool :=
-  let '(f, ops, obs) := c in
-  wf_file f && outs_agree (snd (run_asis f init ops)) obs.
+Definition check_case_asis (c : file * list op * list (option out) * list (option Z)) : bool :=
+  let '(f, ops, obs, ps) := c in
+  wf_file f && outs_agree (snd (run_asis f init ops)) obs && pos_agree f (pos_trace false f init ops) ps.
